@@ -63,8 +63,16 @@ impl ScriptLine {
         let sp = Spelling { case: if upper { Case::Upper } else { Case::Lower }, radix, wide: false, nl: false };
         ScriptLine { raw: what.to_src(&sp), newline: true, cls: "print", what: Some(what) }
     }
+    /// a line that is not valid UTF-8: the private-use character U+F8FF in `raw` stands for the byte FFh
+    pub fn unreadable(rng: &mut Rng) -> ScriptLine {
+        let raw = rng.pick(&["\u{f8ff}", "ne\u{f8ff}xt", "print reg\u{f8ff}", "\u{f8ff}\u{f8ff} q", "abc\u{f8ff}def"]).to_string();
+        ScriptLine { raw, newline: true, cls: "unreadable", what: None }
+    }
     pub fn bytes(&self) -> Vec<u8> {
-        let mut b = self.raw.as_bytes().to_vec();
+        let mut b: Vec<u8> = Vec::new();
+        for ch in self.raw.chars() {
+            if ch == '\u{f8ff}' { b.push(0xFF); } else { let mut t = [0u8; 4]; b.extend_from_slice(ch.encode_utf8(&mut t).as_bytes()); }
+        }
         if self.newline {
             b.push(b'\n');
         }
